@@ -24,7 +24,7 @@ import tlcrun
 from common import *
 
 PROP = "C06"
-FLAGS = dict(ClockAliased=True, QueryFixed=True, DisposeQuery=True)
+FLAGS = dict(ClockAliased=True, QueryFixed=True, DisposeQuery=True, ArgsReuseExact=True)
 TRACE_CONSTS = dict(FLAGS, States='{"A", "B", "C"}', MultiStates='{"B"}')
 
 
@@ -43,7 +43,7 @@ def check(tier):
     rep = Report(PROP, tier, "model_checking")
     sd = seed()
     binary = build_harness()
-    mc = dict(FLAGS, States="<-StatesAB", MultiStates="<-MultiB", MaxTx=2, MaxBinds=2, MaxCtx=1)
+    mc = dict(FLAGS, States="<-StatesAB", MultiStates="<-MultiB", MaxTx=2, MaxBinds=2, MaxCtx=1, UseArgs=True)
     if tier == "quick":
         mc.update(MaxBinds=1)
     r = tlcrun.run_tlc("MCSubs", dict(spec="MCSpec", consts=mc,
@@ -98,7 +98,7 @@ def check(tier):
         rep.coverage.update(
             traces_validated_against_impl=st["scenarios"], evaluations=st["scenarios"],
             distinct_nontrivial=len(kinds), trace_lines=nlines, exhaustive=False,
-            rule="one evaluation = one scenario (8-14 operations: subscriptions of every kind with/without "
+            rule="one evaluation = one scenario (8-14 operations: subscriptions of every kind - When, WhenNot, WhenTime, WhenTicks, WhenNextActive, WhenQuery, WhenArgs, WhenQueue, WhenQueueEnds - with/without "
                  "context, context cancellations, state contexts, transitions accepted or vetoed with "
                  "operations placed inside the setActiveStates/processSubscriptions window, SetSchema, "
                  "Dispose) executed on the real machine with all channels probed after every operation; "
@@ -108,7 +108,8 @@ def check(tier):
             "'a transition has run since' is read as: an accepted transition was processed (docs: subscriptions are processed when the machine ticks)",
             "inside the window a wake-up that is due at the end of the running transition is neither lost nor spurious",
             "a channel requested with an already ended context may be closed at once or at the next processed transition",
-            "WhenArgs is not modelled (needs handler arguments)"]
+            "WhenArgs: a context that ended is collected by the next handler event that completes (any accepted transition of a machine with handlers); after a canceled transition the channel may be open or closed",
+            "WhenQueueEnds: 'the condition' is the end of the queue drain the subscriber saw running"]
     finally:
         shutil.rmtree(d, ignore_errors=True)
     return rep.finish()
